@@ -74,7 +74,7 @@ def replay_atmos(col, case):
                     col.violation(label + "-wrong-value", dict(rep, expected=want, observed=float(got)))
             try:
                 got = A.integrate_water_vapor(vmr, p)
-                if got < -1e-15:
+                if got < -1e-15 and np.all(np.diff(p) < 0):
                     col.violation("iwv-negative", dict(rep, observed=float(got)))
                 # along another axis of a 2-d field
                 got2 = A.integrate_water_vapor(np.tile(vmr, (3, 1)), np.tile(p, (3, 1)), axis=1)
@@ -82,6 +82,18 @@ def replay_atmos(col, case):
                     col.violation("iwv-hydrostatic-wrong-axis", dict(rep, observed=np.asarray(got2).tolist()))
             except Exception:
                 pass
+            # the general form (T and z given) on stacked profiles, the level axis last / first
+            try:
+                tile = lambda v: np.tile(v, (3, 1))
+                g_last = A.integrate_water_vapor(tile(vmr), tile(p), tile(T), tile(z), axis=1)
+                g_neg = A.integrate_water_vapor(tile(vmr), tile(p), tile(T), tile(z), axis=-1)
+                g_first = A.integrate_water_vapor(tile(vmr).T.copy(), tile(p).T.copy(), tile(T).T.copy(), tile(z).T.copy(), axis=0)
+                col.count(3)
+                for label2, gg in (("axis1", g_last), ("axis-1", g_neg), ("axis0", g_first)):
+                    if not allclose(gg, [fl(case["iwvg"])] * 3):
+                        col.violation("iwv-general-wrong-" + label2, dict(rep, expected=fl(case["iwvg"]), observed=np.asarray(gg).tolist()))
+            except Exception as ex:
+                col.violation("iwv-general-raises-" + type(ex).__name__ + "-stacked", dict(rep, observed=repr(ex)[:200]))
             try:
                 A.integrate_water_vapor(vmr, p, T=T)
                 col.violation("iwv-missing-z-accepted", dict(rep, observed="no ValueError"))
@@ -101,7 +113,7 @@ def replay_atmos(col, case):
         gi = A.pressure2height((p * 1024).astype(int), T)          # integer-typed pressures (whole Pa) give the same heights
         if not allclose(gi, want, rel=1e-11):
             col.violation("pressure2height-wrong-value-int-pressure", dict(rep, expected=want.tolist(), observed=np.asarray(gi).tolist()))
-        if got[0] != 0 or np.any(np.diff(got) <= 0):
+        if got[0] != 0 or np.any(np.diff(got) * np.diff(p) >= 0):        # strictly increasing with DECREASING pressure
             col.violation("pressure2height-not-increasing-from-zero", dict(rep, observed=np.asarray(got).tolist()))
     except Exception as ex:
         col.violation("pressure2height-raises-" + type(ex).__name__, dict(rep, observed=repr(ex)[:200]))
@@ -220,8 +232,8 @@ def run(ctx):
                 'INVARIANT CrhLaws\nINVARIANT AEmit\n')
     res = ctx.tlc(d, "AtmosCases", "MCAtmos.cfg", workers=1, timeout=600)
     acases = list(res.tagged("CASE"))
-    if len(acases) != 4:
-        raise MachineryError("expected 4 atmospheric profiles")
+    if len(acases) != 8:
+        raise MachineryError("expected 8 atmospheric profiles (4, each in both orders)")
     pmap(ctx, replay_atmos, acases, procs=1)
     res = ctx.tlc(d, "IsaProps", "IsaProps.cfg", workers=1, timeout=600)
     icases = list(res.tagged("CASE"))
